@@ -57,7 +57,7 @@ CLAIMED["C14"] = ("ovf-codec", "exploration",
 
 CLAIMED["C01"] = ("ovf-system", "exploration",
   "end-to-end property testing of the real client and server binaries over loopback: generated traffic scripts (proptest) against a byte-exact keystream oracle at a scripted application and a scripted target; every README (protocol, cipher, transport) combination in every run",
-  "For each case a fresh octo-squirrel-server and octo-squirrel-client (release build of /repo's working tree, hooks off) are started with a generated configuration (protocol, cipher, transport tcp/tls/ws/wss/quic, user table, worker threads). 1..6 (quick) / 1..24 (thorough) concurrent flows each complete a SOCKS5-IPv4 / SOCKS5-domain / HTTP CONNECT / absolute-URI HTTP handshake and run a generated script of application writes, target writes, pauses and syncs (1 byte .. 256 KiB quick, 4 MiB thorough, protocol edge sizes), optionally through a tap that re-cuts the client-server byte stream. Oracle: the flow's own target port is dialled exactly once; every byte received at either end equals the position-dependent keystream the other end wrote (checked on the fly), nothing extra; when the target answers and closes the application reads the whole answer and then end-of-stream; when the application closes the target reads everything and then end-of-stream; both processes alive without a panic. All 50 README combinations are exercised in every run (sub-check matrix), plus generated combinations. Exploration of scripts and of the interleavings the machine produces.",
+  "For each case a fresh octo-squirrel-server and octo-squirrel-client (release build of /repo's working tree, hooks off) are started with a generated configuration (protocol, cipher, transport tcp/tls/ws/wss/quic, user table, worker threads). 1..6 (quick) / 1..24 (thorough) concurrent flows each complete a SOCKS5-IPv4 / SOCKS5-domain / HTTP CONNECT / absolute-URI HTTP handshake and run a generated script of application writes, target writes, pauses and syncs (1 byte .. 256 KiB quick, 4 MiB thorough, protocol edge sizes), optionally through a tap that re-cuts the client-server byte stream. Oracle: the flow's own target port is dialled exactly once; every byte received at either end equals the position-dependent keystream the other end wrote (checked on the fly), nothing extra; when the target answers and closes the application reads the whole answer and then end-of-stream; when the application closes the target reads everything and then end-of-stream; both processes alive without a panic. All 50 README combinations are exercised in every run (sub-check matrix), plus generated combinations. A second family, cold one-shot uploads (handshake, up to 1.5 MiB quick / 6 MiB thorough, immediate close(), optionally a slow target), runs on all 50 combinations too: the target must read exactly the uploaded bytes and then end-of-stream. Closing steps also come with a slow consumer (the receiving side does not read for up to 250 ms while the last bytes are written and the writer closes). Exploration of scripts and of the interleavings the machine produces.",
   "Trusted: the kernel's loopback TCP, the harness's reader threads and keystream. Deadline-decided failures (20 s) are re-run twice on fresh clusters before being reported; wrong bytes, extra dials and dead processes are reported at once.", "DESIGN.md 5/C01")
 
 CLAIMED["C02"] = ("ovf-system+ovf-codec", "exploration",
@@ -69,6 +69,11 @@ CLAIMED["C08"] = ("ovf-system", "fault_enumeration",
   "fault injection against the real binaries over loopback: every fault of a 20-entry catalogue alone on 14 representative configurations (exhaustive), all ordered pairs (thorough) and generated sequences up to length 4 (proptest), each followed by canary flows that must succeed",
   "Catalogue: stalled / garbage / partial-TLS-hello / half-WebSocket-upgrade / connect-close peers on the server's listener; stalled / garbage / partial-SOCKS5 applications on the client's listener; unresolvable and refused targets; application and target resets mid-flow; junk and replayed datagrams to the server, datagrams to unresolvable targets, malformed local SOCKS5-UDP datagrams, junk to the client's outbound sockets; temporary descriptor exhaustion of server and of client (RLIMIT_NOFILE=80, connections opened until the limit is reached, new UDP sessions arriving meanwhile, then released). Oracle after each sequence, with the hostile connections still open: a fresh byte-exact TCP echo through the same client and server succeeds; where UDP is configured a fresh application's datagram and a datagram of a session that existed before the faults are echoed; both processes alive, no panic, listeners and UDP sockets still bound (/proc). Each fault reports whether it took effect.",
   "Trusted: /proc for descriptor and socket observation; 10 s canary deadline, confirmed on two more fresh clusters. Black-holed addresses are not in the catalogue (no dropping route in the sandbox).", "DESIGN.md 5/C08")
+
+CLAIMED["C15"] = ("ovf-system", "fault_enumeration",
+  "fault injection on flow endings against the real binaries over loopback: every ending of an 11-entry catalogue on every transport (exhaustive), plus generated batches of concurrently or sequentially ending flows (proptest); oracle on delivery, end-of-stream and /proc descriptor counts",
+  "Each case starts a fresh client and server, runs a warm-up flow, records the idle descriptor baseline of both processes (/proc/<pid>/fd), then runs a batch of 1..10 (quick) / 1..32 (thorough) flows, each moving bytes in both directions and then ending in one way: application closes (clean / with data in flight towards it / while the target keeps its own socket open), target closes (same three), application resets, target resets, the client-server link is cut by a tap, the target refuses, the target name does not resolve. Oracle: a clean close delivers everything the closer wrote (byte-exact) and the other side then reads end-of-stream; for abortive endings the other side observes end-of-stream or a reset within the deadline; after the batch, with lingering peer sockets still held open by the harness, the descriptor counts of client and server return to the baseline. Every (transport x ending) pair is exercised in every run.",
+  "Trusted: /proc descriptor counts; 12 s deadline for 'promptly' and 20 s for the baseline, each confirmed on two more fresh clusters before a violation is reported.", "DESIGN.md 5/C15")
 
 PENDING = {}
 
